@@ -369,6 +369,11 @@ func (p *Prog) ComputeLocksets(funcs []*ssa.Function) *Locksets {
 				if !ok {
 					continue // caller not yet analysed
 				}
+				if p.receiverUnderConstruction(s.cs) {
+					// a constructor calling a method of the object it is still building: nobody else can reach that
+					// object yet, so this call says nothing about which locks the method needs
+					continue
+				}
 				if s.kind == EdgeDefer {
 					// deferred call runs at function exit: conservatively nothing held
 					at = LockSet{}
@@ -716,4 +721,46 @@ func (p *Prog) lockWrapper(fn *ssa.Function) (string, string, bool) {
 type wrapInfo struct {
 	obj, method string
 	ok          bool
+}
+
+// receiverUnderConstruction: the call's receiver is an object the calling
+// function has allocated itself and has not published: its only uses are
+// field accesses, method calls on it and returning it.
+func (p *Prog) receiverUnderConstruction(cs ssa.CallInstruction) bool {
+	cc := cs.Common()
+	if cc.IsInvoke() || len(cc.Args) == 0 {
+		return false
+	}
+	cal := cc.StaticCallee()
+	if cal == nil || cal.Signature.Recv() == nil {
+		return false
+	}
+	al, ok := cc.Args[0].(*ssa.Alloc)
+	if !ok || al.Parent() != cs.Parent() {
+		return false
+	}
+	for _, ref := range *al.Referrers() {
+		switch t := ref.(type) {
+		case *ssa.FieldAddr, *ssa.DebugRef, *ssa.Return:
+		case *ssa.Store:
+			if t.Val == ssa.Value(al) {
+				return false // published
+			}
+		case *ssa.Call:
+			if t.Call.IsInvoke() || len(t.Call.Args) == 0 || t.Call.Args[0] != ssa.Value(al) {
+				return false
+			}
+			for _, a := range t.Call.Args[1:] {
+				if a == ssa.Value(al) {
+					return false
+				}
+			}
+			if c2 := t.Call.StaticCallee(); c2 == nil || c2.Signature.Recv() == nil {
+				return false
+			}
+		default:
+			return false
+		}
+	}
+	return true
 }
